@@ -549,6 +549,65 @@ func checkNode(r *ev.Run, label, backend string, newState bool, nc *nodeCase, db
 	tal.merge(c.local)
 }
 
+// checkLongLived replays a history that contains a revert on ONE long-lived Blockchain + RPC stack and runs the read
+// sweep after EVERY operation, so that whatever the node memoises while answering (hash -> number, filters, LRU caches)
+// is filled by reads of the earlier states and must not leak into the answers of the later ones.
+func checkLongLived(r *ev.Run, label, backend string, newState bool, n *hist.Node) {
+	hasRevert := false
+	for _, e := range n.Ops {
+		hasRevert = hasRevert || e == nil
+	}
+	if !hasRevert || len(n.Ops) < 2 {
+		return
+	}
+	d := memory.New()
+	bc := chain.NewNode(d, newState)
+	s, err := newStack(bc)
+	if err != nil {
+		r.Infra("cannot assemble the RPC stack: %v", err)
+	}
+	var ch, rev []*chain.Entry
+	local := map[string]int64{}
+	var reqs int64
+	for i, e := range n.Ops {
+		if e == nil {
+			if err := bc.RevertHead(); err != nil {
+				return // reported by the property that owns reverts (C04)
+			}
+			rev = append(rev, ch[len(ch)-1])
+			ch = ch[:len(ch)-1]
+		} else {
+			var parent *chain.Entry
+			if len(ch) > 0 {
+				parent = ch[len(ch)-1]
+			}
+			if err := chain.StoreSync(bc, e.Fresh(parent)); err != nil {
+				return // C01 / C02 own this
+			}
+			ch = append(ch, e)
+			kept := rev[:0:0]
+			for _, x := range rev {
+				if !x.Block.Hash.Equal(e.Block.Hash) {
+					kept = append(kept, x)
+				}
+			}
+			rev = kept
+		}
+		nc := &nodeCase{chain: append([]*chain.Entry{}, ch...), reverted: append([]*chain.Entry{}, rev...),
+			path: strings.Join(n.Path[:i+1], " ; ") + " [one long-lived node, reads after every operation]", exotic: n.Exotic()}
+		c := &check{r: r, label: label + " long-lived", backend: backend, nc: nc, s: s, local: local}
+		c.l1, c.full = -1, true
+		if panicked, msg := ev.Guard(c.run); panicked {
+			r.Violate("panic-while-serving-read-requests"+backend, obj{"config": label, "history": nc.path, "panic": msg})
+		}
+		reqs += c.reqs
+		c.reqs = 0
+	}
+	r.Add("evaluations", reqs)
+	r.Add("long_lived_histories", 1)
+	tal.merge(local)
+}
+
 func fromHist(n *hist.Node) *nodeCase {
 	return &nodeCase{chain: n.Chain, reverted: n.Reverted, path: n.PathString(), exotic: n.Exotic()}
 }
@@ -585,12 +644,14 @@ func TestCheck(t *testing.T) {
 				NewState: newState, Depth: ru.depth, VersionAt: ru.cfg.at, Run: r, Label: label, Workers: 16,
 				OnStore: func(_, child *hist.Node, _ chain.Named) {
 					checkNode(r, label, backend, newState, fromHist(child), child.DB, reduce)
+					checkLongLived(r, label, backend, newState, child)
 				},
 				OnRevert: func(_, child *hist.Node) {
 					mu.Lock()
 					reverts++
 					mu.Unlock()
 					checkNode(r, label, backend, newState, fromHist(child), child.DB, reduce)
+					checkLongLived(r, label, backend, newState, child)
 				},
 			})
 			states += int64(st.States)
@@ -627,6 +688,7 @@ func TestCheck(t *testing.T) {
 	r.Set("rule", "every target of every {store(block alphabet), revertHead} transition ("+strings.Join(rule, "; ")+") + scripted all-tx-kinds chain with revert/re-store; "+
 		"x L1 head in {none, 0..head, head+1} x block ids {0..head+1, stored/reverted/unknown hash, latest, l1_accepted} x 16 read methods x "+
 		"{(block,index), tx hashes stored/reverted/unknown, 6 contracts x 8 slots, 5 classes} x API v0.8/v0.9/v0.10 through jsonrpc.Server.HandleReader; "+red+
+		"; every history with a revert additionally on ONE long-lived node with the whole read sweep after every operation (memoised lookups must not survive a reorg)"+
 		"; a node is non-trivial = one history target with its own reverted-hash set")
 	r.Assume = append(r.Assume,
 		"block alphabet of mc/chain/alphabet.go + scripted all-tx-kinds blocks; memory DB; VM absent (never reached by read methods); sync reader = NoopSynchronizer (no pre_confirmed data)",
